@@ -17,16 +17,19 @@ PROPS = {
              'concurrent runs are recorded through a hook under the pool mutex and validated by the trace specification; '
              'reorganisations of a loaded full node (rollback notice overtaken by the replacing block on the bus) are provoked '
              'and the same inverted order is a model action replayed deterministically.',
-        note='Pool = production factory mempool.New (timeline queue). Primary rig: the pool on a real message bus with scripted '
-             'blockchain/execs/rpc/p2p responders (every event order possible); second rig: full util/testnode with real '
-             'block execution and a real reorganisation for rollbacks. Clock driven by a verif time-shift hook (tick 1000 s). '
+        note='Pool = production factory mempool.New (timeline queue). Rig 1: the pool on a real message bus with scripted '
+             'blockchain/execs/rpc/p2p responders (every event order possible, used for the bulk of the behaviours); rig 2: full '
+             'util/testnode + factory node, real block execution, rollbacks through real reorganisations (a lone rollback and an '
+             'empty block are impossible there; the Reorg action is enabled only where the bus race between the two notices cannot '
+             'change the outcome). Clock driven by a verif time-shift hook (tick 1000 s). '
              'Short-hash collisions (5-byte prefix) are outside the generated inputs.',
     ),
     'C22': dict(
         text='The admission clauses of the pool are a decision table in the model (Viol): TLC enumerates, for every entry '
              'shape (single, group head, group member, eth-signed) and pool/chain state of a bounded prefix, each clause '
              'violated in turn plus the all-good row; every row is submitted to the real pool and accept/reject and the '
-             'unchanged pool on reject are compared.',
+             'unchanged pool on reject are compared. Groups are also built in a hostile representation (head ground until the '
+             '32-byte group header parses as an encoded transaction list).',
         note='Only accept/reject is compared, not which error. Para-chain real-recipient blacklisting is not reachable on a '
              'main-chain configuration and is not covered; signature soundness itself is trusted (three ways of breaking a '
              'signature are sampled).',
